@@ -273,6 +273,8 @@ def q_header_bytes(c):
     hl = c["header_length"]
     if hl <= len(full):
         return full[:max(72, hl)] if hl >= 72 else full
+    if hl > 4096:            # a lying header_length (malformed stream): the header itself stays 112 bytes
+        return full
     return full + bytes.fromhex(c.get("header_pad", "")).ljust(hl - len(full), b"\x00")[:hl - len(full)]
 
 
@@ -577,7 +579,7 @@ class Qcow2Suite(Suite):
     name = "qcow2"
     shard = 20
     preamble = ("From Coq Require Import String ZArith List.\nImport ListNotations.\n"
-                "From DH Require Import Base.Plan Model.MetaCodec Model.MetaHdd Model.MetaView.\n"
+                "From DH Require Import Base.Plan Model.MetaCodec Model.MetaQcow2 Model.MetaHdd Model.MetaView.\n"
                 "Open Scope string_scope.\nOpen Scope list_scope.\nOpen Scope Z_scope.\n")
 
     def generate(self, rng, tier):
@@ -631,8 +633,18 @@ class Qcow2Suite(Suite):
 
     def coq_term(self, case):
         chunks, size = q_build(case)
-        return (f"q_case {core.cbool(HAS_ZSTD)} {core.cbool(case['data_file_given'])} "
-                f"{core.cbool(case['backing_given'])} {rd_term(chunks, size)}")
+        t = (f"q_case {core.cbool(HAS_ZSTD)} {core.cbool(case['data_file_given'])} "
+             f"{core.cbool(case['backing_given'])} {rd_term(chunks, size)}")
+        if case.get("malformed"):
+            return f"({t}, true)"
+        # tie of the harness serialiser to the writers the theorems are about
+        xs = "[" + "; ".join(f"({Z(e[0])}, {bterm(q_payload(e))})" for e in case["exts"]) + "]"
+        sn = "[" + "; ".join(
+            "{| " + "; ".join(f"ss_{k} := {Z(s[k])}" for k in ("l1_table_offset", "l1_size", "date_sec", "date_nsec",
+                                                            "vm_clock_nsec", "vm_state_size"))
+            + f"; ss_extra := {bterm(bytes.fromhex(s['extra']))}; ss_id := {bterm(bytes.fromhex(s['id']))}; "
+              f"ss_name := {bterm(bytes.fromhex(s['name']))} |}}" for s in case["snaps"]) + "]"
+        return (f"({t}, q_render_check {xs} {bterm(q_ext_bytes(case['exts']))} {sn} {bterm(q_snap_bytes(case['snaps']))})")
 
     def judge(self, case, impl_res, coq_val):
         f = fault("qcow2", impl_res)
@@ -640,6 +652,11 @@ class Qcow2Suite(Suite):
             return f
         fs = []
         spec_m, spec_s = q_spec(case)
+        _, cm, cs_, tie = coq_val          # ((meta, snaps), tie) prints flattened
+        coq_val = ("", cm, cs_)
+        if tie != "true":
+            fs.append(Finding("model_vs_spec", "qcow2: the harness serialiser and the Coq writers (ext_render / snaps_render) "
+                              "produce different bytes for this record", "qcow2:serialiser-tie"))
         mm, ms = q_model(coq_val, case["version"] == 2)
         three_way("qcow2", case, impl_res["open"], mm, spec_m, fs, "open")
         if impl_res["open"][0] == "ok" or mm[0] == "ok":
@@ -977,13 +994,23 @@ class VhdxSuite(Suite):
 
     def coq_term(self, case):
         chunks, size = x_build(case)
-        return f"x_case {rd_term(chunks, size)}"
+        t = f"x_case {rd_term(chunks, size)}"
+        loc = case.get("locator")
+        if (case.get("malformed") or not loc or loc.get("gap") or loc.get("lead_gap") or loc.get("raw")
+                or loc.get("order") != list(range(2 * len(loc["entries"])))):
+            return f"({t}, true)"
+        kvs = "[" + "; ".join(f"({cps(k)}, {cps(v)})" for k, v in loc["entries"]) + "]"
+        return f"({t}, x_render_check {bterm(UUID(loc['type']).bytes_le)} {kvs} {bterm(x_locator_bytes(loc))})"
 
     def judge(self, case, impl_res, coq_val):
         f = fault("vhdx", impl_res)
         if f:
             return f
         fs = []
+        _, coq_val, tie = coq_val
+        if tie != "true":
+            fs.append(Finding("model_vs_spec", "vhdx: the harness serialiser and the Coq writer (locator_render) produce "
+                              "different bytes for this locator", "vhdx:serialiser-tie"))
         three_way("vhdx", case, impl_res["open"], x_model(coq_val), x_spec(case), fs, "open")
         return fs
 
